@@ -14,9 +14,11 @@ Section Statements.
 Variable cstate : Type.
 Variable cinit : cstate.
 Variable cclosed : cstate -> bool.
+Variable creset : packet -> cstate.
 Variable process : cstate -> bool -> packet -> cstate * list cevent * bool.
-Variable flush : cstate -> cstate * list cevent * bool.
-Notation Reach := (reachable cstate cinit cclosed process flush).
+Variable flush : option Z -> cstate -> cstate * list cevent * bool.
+Variable ctrail : option Z -> cstate -> bool.
+Notation Reach := (reachable cstate cinit cclosed creset process flush ctrail).
 
 (* full-strength statements, as properties of a configuration *)
 Definition C12_no_panic_stmt (g : config) : Prop :=
@@ -24,9 +26,9 @@ Definition C12_no_panic_stmt (g : config) : Prop :=
 Definition C12_progress_stmt (g : config) : Prop :=
   forall progs s, Reach g progs s ->
     (all_done s = true \/ any_enabled cstate cinit s = true) /\
-    (forall t, enabled cstate cinit s t = true -> exists s', exec cstate cinit cclosed process flush g s t = Some s').
+    (forall t, enabled cstate cinit s t = true -> exists s', exec cstate cinit cclosed creset process flush ctrail g s t = Some s').
 Definition C12_mutex_stmt (g : config) : Prop :=
-  forall progs s t s', Reach g progs s -> exec cstate cinit cclosed process flush g s t = Some s' ->
+  forall progs s t s', Reach g progs s -> exec cstate cinit cclosed creset process flush ctrail g s t = Some s' ->
     forall t' sid c e, In (ECall t' sid c e) (s_log s') ->
       In (ECall t' sid c e) (s_log s) \/
       (t' = t /\ sid = c_stream (obj cstate cinit s c) /\ c_lock (obj cstate cinit s c) = None /\
@@ -44,27 +46,27 @@ End Statements.
 (* ---------------------------------------------------------------- proved, for every machine *)
 
 (* no thread ever reaches a panic site — tcpassembly, and reassembly once the FIXME panic is gone *)
-Theorem C12_no_panic : forall cstate cinit cclosed process flush g,
-  is_rsm g && g_fixme g = false -> C12_no_panic_stmt cstate cinit cclosed process flush g.
-Proof. intros cs ci cc pr fl g G progs s R. exact (no_panic_reachable cs ci cc pr fl g progs s G R). Qed.
+Theorem C12_no_panic : forall cstate cinit cclosed creset process flush ctrail g,
+  is_rsm g && g_fixme g = false -> C12_no_panic_stmt cstate cinit cclosed creset process flush ctrail g.
+Proof. intros cs ci cc cr pr fl ct g G progs s R. exact (no_panic_reachable cs ci cc cr pr fl ct g progs s G R). Qed.
 Print Assumptions C12_no_panic.
 
 (* no deadlock: unless every thread has returned some thread can step, and an enabled thread
    does step (lock order connection -> pool; pool sections never block) *)
-Theorem C12_progress : forall cstate cinit cclosed process flush g,
-  C12_progress_stmt cstate cinit cclosed process flush g.
+Theorem C12_progress : forall cstate cinit cclosed creset process flush ctrail g,
+  C12_progress_stmt cstate cinit cclosed creset process flush ctrail g.
 Proof.
-  intros cs ci cc pr fl g progs s R. split.
-  - exact (progress cs ci cc pr fl g progs s R).
-  - intros t En. exact (enabled_steps cs ci cc pr fl g s t En).
+  intros cs ci cc cr pr fl ct g progs s R. split.
+  - exact (progress cs ci cc cr pr fl ct g progs s R).
+  - intros t En. exact (enabled_steps cs ci cc cr pr fl ct g s t En).
 Qed.
 Print Assumptions C12_progress.
 
 (* every stream callback is made by a step that takes the (free) lock of the connection
    object that owns the stream at that moment *)
-Theorem C12_mutex : forall cstate cinit cclosed process flush g,
-  C12_mutex_stmt cstate cinit cclosed process flush g.
-Proof. intros cs ci cc pr fl g progs s t s' _ E. exact (mutex_step cs ci cc pr fl g s t s' E). Qed.
+Theorem C12_mutex : forall cstate cinit cclosed creset process flush ctrail g,
+  C12_mutex_stmt cstate cinit cclosed creset process flush ctrail g.
+Proof. intros cs ci cc cr pr fl ct g progs s t s' _ E. exact (mutex_step cs ci cc cr pr fl ct g s t s' E). Qed.
 Print Assumptions C12_mutex.
 
 (* C12_inorder has two halves.  This one holds for every configuration: the packets an
@@ -73,17 +75,17 @@ Print Assumptions C12_mutex.
    half - each packet is processed on a connection object that carries the packet's key at that
    moment, C12_inorder_stmt - is refuted for the code as it is (stale pointer to a recycled
    object) and proved without recycling, below. *)
-Theorem C12_inorder_order : forall cstate cinit cclosed process flush g progs s t,
-  reachable cstate cinit cclosed process flush g progs s ->
+Theorem C12_inorder_order : forall cstate cinit cclosed creset process flush ctrail g progs s t,
+  reachable cstate cinit cclosed creset process flush ctrail g progs s ->
   subseq (procs t (s_log s)) (pkts_of (nth t progs [])).
-Proof. intros cs ci cc pr fl g progs s t R. exact (processed_in_program_order cs ci cc pr fl g progs s t R). Qed.
+Proof. intros cs ci cc cr pr fl ct g progs s t R. exact (processed_in_program_order cs ci cc cr pr fl ct g progs s t R). Qed.
 Print Assumptions C12_inorder_order.
 
 (* a held connection lock belongs to a thread inside that connection's remove section *)
-Theorem C12_lock_owner : forall cstate cinit cclosed process flush g progs s,
-  reachable cstate cinit cclosed process flush g progs s ->
+Theorem C12_lock_owner : forall cstate cinit cclosed creset process flush ctrail g progs s,
+  reachable cstate cinit cclosed creset process flush ctrail g progs s ->
   forall c t, c_lock (obj cstate cinit s c) = Some t -> exists k, t_pc (thr s t) = PRemove c k.
-Proof. intros cs ci cc pr fl g progs s R. exact (inv_lock_reachable cs ci cc pr fl g progs s R). Qed.
+Proof. intros cs ci cc cr pr fl ct g progs s R. exact (inv_lock_reachable cs ci cc cr pr fl ct g progs s R). Qed.
 Print Assumptions C12_lock_owner.
 
 (* at most one pool entry per key and (reassembly) its reverse, so both directions are attached
@@ -97,61 +99,76 @@ Definition C12_one_entry_stmt cstate cinit (g : config) (s : state cstate) : Pro
   NoDup (s_free s) /\
   (forall c, In c (s_free s) -> ~ In c (map snd (s_conns s)) /\ c < length (s_objs s)).
 
-Theorem C12_one_entry : forall cstate cinit cclosed process flush g progs s,
-  machine_ok cstate cinit cclosed process flush ->
-  reachable cstate cinit cclosed process flush g progs s ->
+(* trail_cfg g = false: tcpassembly, or reassembly whose flushers do not perform the second,
+   unlocked remove() of FlushWithOptions (i.e. they call FlushAll; with FlushCloseOlderThan the
+   statement is refuted below, C12_one_entry_refuted_reassembly_age_flush) *)
+Theorem C12_one_entry : forall cstate cinit cclosed creset process flush ctrail g progs s,
+  machine_ok cstate cinit cclosed creset process flush -> trail_cfg g = false ->
+  reachable cstate cinit cclosed creset process flush ctrail g progs s ->
   C12_one_entry_stmt cstate cinit g s.
 Proof.
-  intros cs ci cc pr fl g progs s Hm R.
-  destruct (inv_pool_reachable cs ci cc pr fl Hm g progs s R) as [A B C D E F _ _].
+  intros cs ci cc cr pr fl ct g progs s Hm GT R.
+  destruct (inv_pool_reachable cs ci cc cr pr fl ct Hm g progs s GT R) as [A B C D E F _ _].
   split; [exact A|]. split; [exact B|]. split; [exact C|]. split; [exact D|]. split; [exact E|].
   intros c Hc. destruct (F c Hc) as [F1 [F2 _]]. split; assumption.
 Qed.
 Print Assumptions C12_one_entry.
 
 (* a stream belongs to one connection object at a time (fresh stream per reset) *)
-Theorem C12_stream_owner_unique : forall cstate cinit cclosed process flush g progs s,
-  machine_ok cstate cinit cclosed process flush ->
-  reachable cstate cinit cclosed process flush g progs s ->
+Theorem C12_stream_owner_unique : forall cstate cinit cclosed creset process flush ctrail g progs s,
+  machine_ok cstate cinit cclosed creset process flush -> trail_cfg g = false ->
+  reachable cstate cinit cclosed creset process flush ctrail g progs s ->
   forall c1 c2, c1 < length (s_objs s) -> c2 < length (s_objs s) ->
     c_stream (obj cstate cinit s c1) = c_stream (obj cstate cinit s c2) -> c1 = c2.
 Proof.
-  intros cs ci cc pr fl g progs s Hm R.
-  exact (is_inj _ _ _ _ (inv_str_reachable cs ci cc pr fl Hm g progs s R)).
+  intros cs ci cc cr pr fl ct g progs s Hm GT R.
+  exact (is_inj _ _ _ _ (inv_str_reachable cs ci cc cr pr fl ct Hm g progs s GT R)).
 Qed.
 Print Assumptions C12_stream_owner_unique.
 
 (* C12_complete_once, the part that holds: no stream is completed twice (the other half of
    the statement, "every kept stream is completed", is refuted below) *)
-Theorem C12_complete_once_partial : forall cstate cinit cclosed process flush g progs s,
-  machine_ok cstate cinit cclosed process flush ->
-  reachable cstate cinit cclosed process flush g progs s ->
+Theorem C12_complete_once_partial : forall cstate cinit cclosed creset process flush ctrail g progs s,
+  machine_ok cstate cinit cclosed creset process flush -> trail_cfg g = false ->
+  reachable cstate cinit cclosed creset process flush ctrail g progs s ->
   forall sid, completes sid (s_log s) <= 1.
 Proof.
-  intros cs ci cc pr fl g progs s Hm R sid.
-  exact (proj1 (is_once _ _ _ _ (inv_str_reachable cs ci cc pr fl Hm g progs s R) sid)).
+  intros cs ci cc cr pr fl ct g progs s Hm GT R sid.
+  exact (proj1 (is_once _ _ _ _ (inv_str_reachable cs ci cc cr pr fl ct Hm g progs s GT R) sid)).
 Qed.
 Print Assumptions C12_complete_once_partial.
+
+(* a flusher (FlushAll, FlushOlderThan / FlushWithOptions) whose snapshot predates the close does
+   not touch the closed connection: tcpassembly, any machine, any state.  With C12_mutex (every
+   callback is made in a step on a PWant program counter) this extends mutual exclusion and
+   completion-at-most-once to programs with age-based flushes. *)
+Theorem C12_flush_skips_closed : forall cstate cinit cclosed creset process flush ctrail g s t s' c a r,
+  g_pkg g = Tcp -> t_pc (thr s t) = PWant c (WFlush a r) -> cclosed (c_st (obj cstate cinit s c)) = true ->
+  exec cstate cinit cclosed creset process flush ctrail g s t = Some s' ->
+  s_objs s' = s_objs s /\ s_conns s' = s_conns s /\ s_free s' = s_free s /\ s_log s' = s_log s /\
+  s_nsid s' = s_nsid s /\ s_thr s' = upd (s_thr s) t (mkThr (cont_flush a r (t_prog (thr s t))) (t_prog (thr s t))).
+Proof. intros cs ci cc cr pr fl ct g s t s' c a r. exact (flush_skips_closed cs ci cc cr pr fl ct g s t s' c a r). Qed.
+Print Assumptions C12_flush_skips_closed.
 
 (* What recycling costs: in the configuration g_recycle = false (remove() does not put the
    object on the free list - a HYPOTHETICAL repair, not the code as it is) the two statements
    refuted below hold for every machine, any number of threads and every reachable state.
    So the stale pointer to a recycled object is the only cause of the two refutations. *)
-Theorem C12_lockset_without_recycling : forall cstate cinit cclosed process flush g,
-  machine_ok cstate cinit cclosed process flush -> g_recycle g = false ->
-  C12_lockset_stmt cstate cinit cclosed process flush g.
-Proof. intros cs ci cc pr fl g Hm G progs s R. exact (lockset_norecycle cs ci cc pr fl Hm g progs s G R). Qed.
-Theorem C12_inorder_without_recycling : forall cstate cinit cclosed process flush g,
-  machine_ok cstate cinit cclosed process flush -> g_recycle g = false ->
-  C12_inorder_stmt cstate cinit cclosed process flush g.
-Proof. intros cs ci cc pr fl g Hm G progs s R. exact (right_stream_norecycle cs ci cc pr fl Hm g progs s G R). Qed.
+Theorem C12_lockset_without_recycling : forall cstate cinit cclosed creset process flush ctrail g,
+  machine_ok cstate cinit cclosed creset process flush -> trail_cfg g = false -> g_recycle g = false ->
+  C12_lockset_stmt cstate cinit cclosed creset process flush ctrail g.
+Proof. intros cs ci cc cr pr fl ct g Hm GT G progs s R. exact (lockset_norecycle cs ci cc cr pr fl ct Hm g progs s GT G R). Qed.
+Theorem C12_inorder_without_recycling : forall cstate cinit cclosed creset process flush ctrail g,
+  machine_ok cstate cinit cclosed creset process flush -> trail_cfg g = false -> g_recycle g = false ->
+  C12_inorder_stmt cstate cinit cclosed creset process flush ctrail g.
+Proof. intros cs ci cc cr pr fl ct g Hm GT G progs s R. exact (right_stream_norecycle cs ci cc cr pr fl ct Hm g progs s GT G R). Qed.
 Print Assumptions C12_lockset_without_recycling.
 Print Assumptions C12_inorder_without_recycling.
 
 (* the hypothesis on the per-connection machine holds for the two concrete machines *)
-Theorem C12_machine_ok_tcpassembly : machine_ok tconn tc_init tc_closed tcp_process tcp_flush.
+Theorem C12_machine_ok_tcpassembly : machine_ok tconn tc_init tc_closed tcp_reset tcp_process tcp_flush.
 Proof. exact tcp_machine_ok. Qed.
-Theorem C12_machine_ok_reassembly : machine_ok rconn rc_init rc_closed rsm_process rsm_flush.
+Theorem C12_machine_ok_reassembly : machine_ok rconn rc_init rc_closed rsm_reset rsm_process rsm_flush.
 Proof. exact rsm_machine_ok. Qed.
 Print Assumptions C12_machine_ok_tcpassembly.
 Print Assumptions C12_machine_ok_reassembly.
@@ -159,14 +176,14 @@ Print Assumptions C12_machine_ok_reassembly.
 (* ---------------------------------------------------------------- witnesses *)
 Definition kA0 := mkKey 0 false. Definition kA1 := mkKey 0 true.
 Definition kB0 := mkKey 1 false. Definition kD0 := mkKey 3 false.
-Definition syn (k : key) := OPkt (mkPkt k true false 1000%Z []).
-Definition fin1 (k : key) := OPkt (mkPkt k false true 1001%Z []).
-Definition dat (k : key) := OPkt (mkPkt k false false 1001%Z [16; 17]%Z).
+Definition syn (k : key) := OPkt (mkPkt k true false 1000%Z [] 0%Z).
+Definition fin1 (k : key) := OPkt (mkPkt k false true 1001%Z [] 0%Z).
+Definition dat (k : key) := OPkt (mkPkt k false false 1001%Z [16; 17]%Z 0%Z).
 
-Definition reach_tcp := reachable tconn tc_init tc_closed tcp_process tcp_flush.
-Definition reach_rsm := reachable rconn rc_init rc_closed rsm_process rsm_flush.
-Definition sched_tcp g progs sched := fst (run_sched tconn tc_init tc_closed tcp_process tcp_flush g (init tconn progs) false sched).
-Definition sched_rsm g progs sched := fst (run_sched rconn rc_init rc_closed rsm_process rsm_flush g (init rconn progs) false sched).
+Definition reach_tcp := reachable tconn tc_init tc_closed tcp_reset tcp_process tcp_flush tcp_trail.
+Definition reach_rsm := reachable rconn rc_init rc_closed rsm_reset rsm_process rsm_flush rsm_trail.
+Definition sched_tcp g progs sched := fst (run_sched tconn tc_init tc_closed tcp_reset tcp_process tcp_flush tcp_trail g (init tconn progs) false sched).
+Definition sched_rsm g progs sched := fst (run_sched rconn rc_init rc_closed rsm_reset rsm_process rsm_flush rsm_trail g (init rconn progs) false sched).
 
 Lemma sched_tcp_reach g progs sched : reach_tcp g progs (sched_tcp g progs sched).
 Proof. apply run_sched_reachable. constructor. Qed.
@@ -177,7 +194,7 @@ Proof. apply run_sched_reachable. constructor. Qed.
 Definition w_fixme_progs := [[syn kA0]; [syn kA1]].
 Definition w_fixme_sched := [0; 1; 0; 0; 1].
 Theorem C12_no_panic_refuted :
-  ~ C12_no_panic_stmt rconn rc_init rc_closed rsm_process rsm_flush cfg_rsm_orig.
+  ~ C12_no_panic_stmt rconn rc_init rc_closed rsm_reset rsm_process rsm_flush rsm_trail cfg_rsm_orig.
 Proof.
   intros H. apply (H w_fixme_progs _ (sched_rsm_reach cfg_rsm_orig w_fixme_progs w_fixme_sched) 1).
   vm_compute. reflexivity.
@@ -192,18 +209,18 @@ Proof. vm_compute. repeat split; reflexivity. Qed.
 (* stale pointer to a closed, recycled connection object.
    tcpassembly: 0 = [SYN a0; FIN a0; SYN b0], 1 = [data a0] *)
 Definition w_rec_tcp := [[syn kA0; fin1 kA0; syn kB0]; [dat kA0]].
-Definition w_rec_rsm := [[syn kA0; OFlush; syn kB0]; [dat kA0]].
+Definition w_rec_rsm := [[syn kA0; OFlush None; syn kB0]; [dat kA0]].
 Definition w_rec_race := [0; 0; 0; 0; 0; 1; 0; 0].
 Definition w_rec_wrong := [0; 0; 0; 0; 0; 1; 0; 0; 0; 0; 1].
 
 Theorem C12_lockset_refuted_tcpassembly :
-  ~ C12_lockset_stmt tconn tc_init tc_closed tcp_process tcp_flush cfg_tcp.
+  ~ C12_lockset_stmt tconn tc_init tc_closed tcp_reset tcp_process tcp_flush tcp_trail cfg_tcp.
 Proof.
   intros H. specialize (H w_rec_tcp _ (sched_tcp_reach cfg_tcp w_rec_tcp w_rec_race)).
   vm_compute in H. discriminate.
 Qed.
 Theorem C12_lockset_refuted_reassembly :
-  ~ C12_lockset_stmt rconn rc_init rc_closed rsm_process rsm_flush cfg_rsm.
+  ~ C12_lockset_stmt rconn rc_init rc_closed rsm_reset rsm_process rsm_flush rsm_trail cfg_rsm.
 Proof.
   intros H. specialize (H w_rec_rsm _ (sched_rsm_reach cfg_rsm w_rec_rsm w_rec_race)).
   vm_compute in H. discriminate.
@@ -212,13 +229,13 @@ Print Assumptions C12_lockset_refuted_tcpassembly.
 Print Assumptions C12_lockset_refuted_reassembly.
 
 Theorem C12_inorder_refuted_tcpassembly :
-  ~ C12_inorder_stmt tconn tc_init tc_closed tcp_process tcp_flush cfg_tcp.
+  ~ C12_inorder_stmt tconn tc_init tc_closed tcp_reset tcp_process tcp_flush tcp_trail cfg_tcp.
 Proof.
   intros H. specialize (H w_rec_tcp _ (sched_tcp_reach cfg_tcp w_rec_tcp w_rec_wrong)).
   vm_compute in H. discriminate.
 Qed.
 Theorem C12_inorder_refuted_reassembly :
-  ~ C12_inorder_stmt rconn rc_init rc_closed rsm_process rsm_flush cfg_rsm.
+  ~ C12_inorder_stmt rconn rc_init rc_closed rsm_reset rsm_process rsm_flush rsm_trail cfg_rsm.
 Proof.
   intros H. specialize (H w_rec_rsm _ (sched_rsm_reach cfg_rsm w_rec_rsm w_rec_wrong)).
   vm_compute in H. discriminate.
@@ -228,11 +245,11 @@ Print Assumptions C12_inorder_refuted_reassembly.
 
 (* a recycled object that lost the insert race is closed by a stale FlushAll; its remove
    deletes the winner's entry, whose stream is never completed (thread 3 is the final FlushAll) *)
-Definition w_evict := [[syn kA0; syn kD0; OFlush; syn kB0]; [OFlush]; [syn kB0]; [OFlush]].
+Definition w_evict := [[syn kA0; syn kD0; OFlush None; syn kB0]; [OFlush None]; [syn kB0]; [OFlush None]].
 Definition w_evict_tcp_sched := [0;0;0;0;0;0;0;0;0;0;2;2;1;0;0;1;1;0;0;2;2;0;0;2;1;1;2;3].
 Definition w_evict_rsm_sched := [0;0;0;0;1;0;0;0;0;0;0;0;0;2;0;0;2;1;1;2;3].
 Theorem C12_complete_once_refuted_tcpassembly :
-  ~ C12_complete_once_stmt tconn tc_init tc_closed tcp_process tcp_flush cfg_tcp.
+  ~ C12_complete_once_stmt tconn tc_init tc_closed tcp_reset tcp_process tcp_flush tcp_trail cfg_tcp.
 Proof.
   intros H. destruct (H w_evict _ (sched_tcp_reach cfg_tcp w_evict w_evict_tcp_sched)) as [_ H2].
   assert (E : chk_complete_once_final (sched_tcp cfg_tcp w_evict w_evict_tcp_sched) = true)
@@ -240,7 +257,7 @@ Proof.
   vm_compute in E. discriminate.
 Qed.
 Theorem C12_complete_once_refuted_reassembly :
-  ~ C12_complete_once_stmt rconn rc_init rc_closed rsm_process rsm_flush cfg_rsm.
+  ~ C12_complete_once_stmt rconn rc_init rc_closed rsm_reset rsm_process rsm_flush rsm_trail cfg_rsm.
 Proof.
   intros H. destruct (H w_evict _ (sched_rsm_reach cfg_rsm w_evict w_evict_rsm_sched)) as [_ H2].
   assert (E : chk_complete_once_final (sched_rsm cfg_rsm w_evict w_evict_rsm_sched) = true)
@@ -250,6 +267,58 @@ Qed.
 Print Assumptions C12_complete_once_refuted_tcpassembly.
 Print Assumptions C12_complete_once_refuted_reassembly.
 
+(* reassembly FlushCloseOlderThan: the second remove(conn), made after the connection lock is
+   released, deletes the entry of a connection re-created for the same key in between.
+   The flusher analogue of C12_flush_skips_closed fails, and so does completion. *)
+Definition C12_second_remove_harmless_stmt cstate cinit cclosed creset process flush ctrail (g : config) : Prop :=
+  forall progs s t s' c a r, reachable cstate cinit cclosed creset process flush ctrail g progs s ->
+    t_pc (thr s t) = PRemove2 c a r ->
+    exec cstate cinit cclosed creset process flush ctrail g s t = Some s' -> s_conns s' = s_conns s.
+Definition synT (k : key) (ts : Z) := OPkt (mkPkt k true false 1000%Z [] ts).
+Definition w_second_1 := [[synT kA0 1; OFlush (Some 10%Z)]; [synT kA0 2]; [OFlush None]].
+Definition w_second_1_sched := [0;0;0;0;0;0;1;1;0;1;2].
+Definition w_second_2 := [[synT kA0 1; OFlush None]; [OFlush (Some 10%Z)]; [synT kA0 2]; [OFlush None]].
+Definition w_second_2_prefix := [0;0;0;0;0;1;0;1;2;2].
+Theorem C12_flush_skips_closed_refuted_reassembly :
+  ~ C12_second_remove_harmless_stmt rconn rc_init rc_closed rsm_reset rsm_process rsm_flush rsm_trail cfg_rsm.
+Proof.
+  intros H.
+  specialize (H w_second_2 _ 1 (sched_rsm cfg_rsm w_second_2 (w_second_2_prefix ++ [1])) 0 (Some 10%Z) []
+                (sched_rsm_reach cfg_rsm w_second_2 w_second_2_prefix)).
+  assert (E : s_conns (sched_rsm cfg_rsm w_second_2 (w_second_2_prefix ++ [1])) =
+              s_conns (sched_rsm cfg_rsm w_second_2 w_second_2_prefix)).
+  { apply H; vm_compute; reflexivity. }
+  vm_compute in E. discriminate.
+Qed.
+Theorem C12_complete_once_refuted_reassembly_age_flush :
+  ~ C12_complete_once_stmt rconn rc_init rc_closed rsm_reset rsm_process rsm_flush rsm_trail cfg_rsm.
+Proof.
+  intros H. destruct (H w_second_1 _ (sched_rsm_reach cfg_rsm w_second_1 w_second_1_sched)) as [_ H2].
+  assert (E : chk_complete_once_final (sched_rsm cfg_rsm w_second_1 w_second_1_sched) = true)
+    by (apply H2; vm_compute; reflexivity).
+  vm_compute in E. discriminate.
+Qed.
+Print Assumptions C12_flush_skips_closed_refuted_reassembly.
+Print Assumptions C12_complete_once_refuted_reassembly_age_flush.
+
+(* non-vacuity of C12_flush_skips_closed: the flusher of tcpassembly locks a connection closed
+   (in-order FIN, a page still queued) after its snapshot: nothing but its program counter changes *)
+Definition w_flush_closed := [[synT kA0 1; OPkt (mkPkt kA0 false false 1003%Z [18; 19]%Z 1%Z); OPkt (mkPkt kA0 false true 1001%Z [] 2%Z)];
+                              [OFlush (Some 10%Z)]].
+Example C12_flush_skips_closed_nonvacuous :
+  let s := sched_tcp cfg_tcp w_flush_closed [0;0;0;0;0;0;1;0;0] in
+  t_pc (thr s 1) = PWant 0 (WFlush (Some 10%Z) []) /\ tc_closed (c_st (obj tconn tc_init s 0)) = true /\
+  length (tc_q (c_st (obj tconn tc_init s 0))) = 1 /\
+  s_log (sched_tcp cfg_tcp w_flush_closed [0;0;0;0;0;0;1;0;0;1]) = s_log s.
+Proof. vm_compute. repeat split; reflexivity. Qed.
+(* losing the lookup-versus-close race twice: the packet is processed on a third, open connection *)
+Example C12_retry_twice_nonvacuous :
+  let progs := [[synT kA0 1; fin1 kA0; synT kA0 2; fin1 kA0]; [dat kA0]] in
+  let s := sched_tcp cfg_tcp progs [0;0;0;0;1;0;0;1;0;0;0;1;0;0;0;1;1;1;1] in
+  s_nsid s = 3 /\ length (filter (fun tg => match tg with TgRetry => true | _ => false end) (s_tags s)) = 2 /\
+  chk_complete_most_once s = true.
+Proof. vm_compute. repeat split; reflexivity. Qed.
+
 (* non-vacuity of C12_one_entry: after the both-directions race on the repaired code the map
    has exactly one entry, and after close + recycle the free list is non-empty *)
 Example C12_one_entry_nonvacuous :
@@ -258,15 +327,16 @@ Example C12_one_entry_nonvacuous :
   C12_one_entry_stmt tconn tc_init cfg_tcp s.
 Proof.
   split; [vm_compute; reflexivity|]. split; [vm_compute; reflexivity|]. split; [vm_compute; reflexivity|].
-  apply (C12_one_entry tconn tc_init tc_closed tcp_process tcp_flush cfg_tcp w_rec_tcp).
+  apply (C12_one_entry tconn tc_init tc_closed tcp_reset tcp_process tcp_flush tcp_trail cfg_tcp w_rec_tcp).
   - exact tcp_machine_ok.
+  - reflexivity.
   - apply sched_tcp_reach.
 Qed.
 
 (* the schedule that sends data to the wrong stream, run without recycling: the stale pointer
    finds the connection closed, the assembler looks up again and opens a new stream for a0 *)
 Example C12_without_recycling_nonvacuous :
-  let g := mkCfg Tcp false false in
+  let g := mkCfg Tcp false false true in
   let s := sched_tcp g w_rec_tcp (w_rec_wrong ++ [1; 1; 1]) in
   chk_right_stream g s = true /\ has_race tconn tc_init g s = false /\
   s_nsid s = 3 /\ all_done s = true /\ In TgRetry (s_tags s).
